@@ -196,7 +196,7 @@ def _chain_rules(c, R, rid, gsm, spec):
     roles = ["synthetic", "access"]      # items of IndexMap<MethodRefObj, MethodAccess>::iter()
     filters = []                          # formulas
     potential_info = {}
-    one = {"lookup": None, "len": []}
+    one = {"lookup": None, "len": [], "narrowed": []}
 
     def atom_factory(env):
         def atom(n):
@@ -261,6 +261,13 @@ def _chain_rules(c, R, rid, gsm, spec):
                     has_len = any(x.get("k") == "mcall" and x["name"] == "len" for x in H.walk(icl["body"]))
                     ps = [H.pat_bindings(p0) for p0 in icl["params"]]
                     if has_len and len(ps) == 1 and len(ps[0]) == 1:
+                        # the set whose size is tested is the looked-up set itself (the closure parameter), not a narrowed copy of it
+                        for x in H.walk(icl["body"]):
+                            if x.get("k") == "mcall" and x["name"] == "len":
+                                l = H.local_of(H.peel(x["recv"]))
+                                if not (l and l[0] == ps[0][0][0]):
+                                    one["narrowed"].append(("`%s`: the size tested is not the size of the looked-up call set" % H.render(x)[:80], x.get("sp")))
+                        one["len_seen"] = True
                         table = {}
                         for size in (0, 1, 2, 3):
                             ev = T.Evaluator(calls={"len": (lambda args, size=size: ("i", size))})
@@ -275,6 +282,13 @@ def _chain_rules(c, R, rid, gsm, spec):
                             else:
                                 table[size] = "?" + T.show(r)[:60]
                         one["len"].append((table, m["sp"]))
+                    if not has_len and not one.get("len_seen") and v.get("k") != "tuple":
+                        # a step between the lookup and the size test that hands on something else than the looked-up set
+                        # (`.map(|x| x.iter().filter(..).collect())`): "exactly one distinct callee" is then decided on a narrowed set
+                        v0 = H.peel(v)
+                        l = H.local_of(v0)
+                        if not (l and len(ps) == 1 and len(ps[0]) == 1 and l[0] == ps[0][0][0]):
+                            one["narrowed"].append(("step `%s(%s)` before the size test replaces the looked-up call set" % (m["name"], H.render(icl)[:80]), m.get("sp")))
                     if v.get("k") == "tuple":
                         # the closure parameter here is the single callee
                         ienv2 = dict(env)
@@ -414,6 +428,9 @@ def _chain_rules(c, R, rid, gsm, spec):
            got=[t for t, _ in tabs], detail="synthetics calling zero or several distinct methods are not bridges")
     R.inst(rid, "chain:one-callee:otherwise-none", len(tabs) == 1 and all(tabs[0][0][k] == "dropped" for k in (0, 2, 3)),
            sp=tabs[0][1] if tabs else loop["sp"], expect="None (no pair) for 0, 2, 3.. callees", got=[t for t, _ in tabs])
+    R.inst(rid, "chain:one-callee:whole-call-set", not one["narrowed"], sp=(one["narrowed"][0][1] if one["narrowed"] else (tabs[0][1] if tabs else loop["sp"])),
+           expect="the size test looks at the set found under the synthetic method, unfiltered", got=[x[0] for x in one["narrowed"]] or "unfiltered",
+           detail="a synthetic that calls several distinct methods is not a bridge, whoever owns them (seed C15-13)")
     adt = c.adts.get(MOD + "::ReferenceIndex")
     ty = None
     if adt:
